@@ -729,6 +729,9 @@ func TestClientServer(t *testing.T) {
 			}
 			res := guard(call)
 			done := f.mitm.result()
+			if !mutate {
+				done = ""
+			}
 			if err := f.sync(ctx); err != nil { // verified writes commit whatever happens to the reply
 				rt.Fatalf("harness: %v", err)
 			}
